@@ -158,9 +158,9 @@ def iteration_independence(cfg: CFG, eval_node: ast.AST, loops: List[ast.AST],
     start = cfg.n(eval_node)
     work: List[Tuple[str, int]] = []
     seen: Set[Tuple[str, int]] = set()
-    for cur in [eval_node] + list(walk_local(eval_node)):
-        if isinstance(cur, ast.Name) and isinstance(cur.ctx, ast.Load):
-            work.append((cur.id, start))
+    from .cfg import free_loads
+    for name in free_loads(eval_node):
+        work.append((name, start))
     mut_nodes: Dict[str, List[int]] = {}
     for nid in outer_body:
         for name in mutated_names(cfg.nodes[nid].ast):
